@@ -736,6 +736,20 @@ pub fn run(run: &Run) -> i32 {
                 }
             }
         }
+        // all-zero rows (vacuous checks) in every position, other rows of weight >= 2
+        {
+            let rows3: Vec<u64> = vec![0b000, 0b011, 0b101, 0b110, 0b111];
+            for idx in 0..5usize.pow(4) {
+                let rows: Vec<u64> = (0..4).map(|i| rows3[(idx / 5usize.pow(i)) % 5]).collect();
+                if !rows.contains(&0) || rows.iter().all(|&r| r == 0) {
+                    continue;
+                }
+                let m = Small { r: 4, n: 3, rows };
+                for k in if run.thorough() { vec![0, 2] } else { vec![2] } {
+                    work.push((Case { m: m.clone(), mname: format!("zero-rows4x3:{}", m.alist_like()), order: scrambled(&m, k) }, a5.clone()));
+                }
+            }
+        }
         for (name, m) in named() {
             for k in 1..4 {
                 let alpha = if run.thorough() { a5.clone() } else if m.n <= 5 { a5.clone() } else { a3.clone() };
@@ -787,7 +801,7 @@ pub fn run(run: &Run) -> i32 {
         run,
         acc,
         Coverage {
-            rule: "equality clause: generic flooding and layered decoders instantiated with a checker-supplied exact integer min-sum arithmetic inside a probing wrapper (tags every LLR with its variable index, logs every trait call with arguments and results); every matrix with row weights >= 2 of shapes 2x3 (EVERY insertion order of its entries), 2x4, 3x4 (three scrambled insertion orders) and six named matrices x LLR in an integer alphabet ^n x limits {0..4}; verdict/word/iterations AND the normalised call log (one check update per row then one variable update per column per flooding iteration; row-ordered single-check updates with the variable vector seen at call time for layered) must equal a textbook implementation, both on a fresh decoder and on one long-lived decoder per (matrix, schedule) that has already decoded all earlier frames of the enumeration. Exactness clause: every forest (reference acyclicity test) with check degree >= 2 of the listed shapes, all labellings, LLR in {-2.5,-0.7,0.3,1.1,4}^n (3-value sub-alphabet for the largest shapes) with non-codeword sign pattern, Phif64 and Tanhf64 inside a forcing wrapper (syndrome test always fails), both schedules, limits = diameter and = number of nodes: final per-bit LLR vs brute-force posterior within 1e-9 rel + 1e-9 abs. Non-trivial = at least one iteration run.".into(),
+            rule: "equality clause: generic flooding and layered decoders instantiated with a checker-supplied exact integer min-sum arithmetic inside a probing wrapper (tags every LLR with its variable index, logs every trait call with arguments and results); every matrix with row weights >= 2 of shapes 2x3 (EVERY insertion order of its entries), 2x4, 3x4 (three scrambled insertion orders), every 4x3 matrix with at least one all-zero row and the other rows of weight >= 2, and six named matrices x LLR in an integer alphabet ^n x limits {0..4}; verdict/word/iterations AND the normalised call log (one check update per row then one variable update per column per flooding iteration; row-ordered single-check updates with the variable vector seen at call time for layered) must equal a textbook implementation, both on a fresh decoder and on one long-lived decoder per (matrix, schedule) that has already decoded all earlier frames of the enumeration. Exactness clause: every forest (reference acyclicity test) with check degree >= 2 of the listed shapes, all labellings, LLR in {-2.5,-0.7,0.3,1.1,4}^n (3-value sub-alphabet for the largest shapes) with non-codeword sign pattern, Phif64 and Tanhf64 inside a forcing wrapper (syndrome test always fails), both schedules, limits = diameter and = number of nodes: final per-bit LLR vs brute-force posterior within 1e-9 rel + 1e-9 abs. Non-trivial = at least one iteration run.".into(),
             exhaustive: true,
             extra,
             graph: None,
